@@ -204,6 +204,9 @@ func variant(r *rand.Rand, g gcontract, kind int) gcontract {
 			[]svcSpec{{"New", []methodSpec{unary("Call", ".extra.E", ".extra.E")}}}))
 		v.listed = append(v.listed, "extra.New")
 	case 3: // a message gains a field in a leaf file (descriptor bytes change, services do not)
+		if len(v.fds) == 0 {
+			return variant(r, g, 2)
+		}
 		fd := v.fds[len(v.fds)-1]
 		if len(fd.MessageType) > 0 {
 			n := len(fd.MessageType[0].Field)
@@ -226,6 +229,16 @@ func variant(r *rand.Rand, g gcontract, kind int) gcontract {
 			// drop a service whose file is still needed? keep it simple: list only the first service if the
 			// remaining files stay reachable is not guaranteed, so just permute instead
 			r.Shuffle(len(v.listed), func(i, j int) { v.listed[i], v.listed[j] = v.listed[j], v.listed[i] })
+		}
+	case 7: // the target serves nothing (any more): no services at all, or only administrative ones, hence no files
+		v.fds = nil
+		switch r.Intn(3) {
+		case 0:
+			v.listed = nil
+		case 1:
+			v.listed = []string{"grpc.health.v1.Health"}
+		default:
+			v.listed = []string{"grpc.reflection.v1.ServerReflection", "grpc.reflection.v1alpha.ServerReflection", "grpc.health.v1.Health"}
 		}
 	case 6: // only an administrative service is added to the listing (filtered: no change)
 		v.listed = append(v.listed, "grpc.channelz.v1.Channelz")
@@ -490,6 +503,28 @@ func (Area) Gen(r *rand.Rand, tier string, emit func(string)) {
 			p.closeAt = pt
 			emitHist(emit, false, cs, []gplan{sp(0, 3), p, sp(2, -1)})
 		}
+		// EMPTY versions (cs2: 0 base, 1 empty listing, 2 only administrative services, 3 changed base)
+		{
+			e1, e2 := variant(r, b, 7), variant(r, b, 7)
+			e1.listed = nil
+			e2.listed = []string{"grpc.health.v1.Health", "grpc.reflection.v1.ServerReflection"}
+			cs2 := []gcontract{b, e1, e2, chg}
+			fe := func(cid int, m string) gplan { p := sp(cid, 3); p.att = [2]string{m, m}; return p }
+			for _, os := range []bool{false, true} {
+				// the first successful poll of an empty target delivers (an empty description); empty again is silent
+				emitHist(emit, os, cs2, []gplan{sp(1, 3), sp(1, 3), sp(2, 3), sp(0, 3), sp(0, -1)})
+				emitHist(emit, os, cs2, []gplan{sp(2, 3), sp(1, 3), sp(1, -1)})
+				// non-empty -> empty -> non-empty: both changes are delivered, also when only grpc.* services remain
+				emitHist(emit, os, cs2, []gplan{sp(0, 3), sp(1, 3), sp(0, 3), sp(2, 3), sp(2, 3), sp(3, -1)})
+				// empty after an error, error before the first (empty) version, error between two empty polls
+				emitHist(emit, os, cs2, []gplan{sp(0, 3), fe(0, "A0@lr"), sp(1, 3), fe(1, "I1@o"), sp(1, 3), sp(0, -1)})
+				emitHist(emit, os, cs2, []gplan{fe(1, "E1@lr"), sp(1, 3), fe(1, "G1"), sp(2, 3), sp(0, -1)})
+			}
+			// Unimplemented on one version while the target is empty; the timer path is covered by the tick lines below
+			ue := sp(1, 3)
+			ue.att[0] = "U1@o"
+			emitHist(emit, false, cs2, []gplan{sp(0, 3), ue, ue, sp(0, -1)})
+		}
 		// OnlyServices: files are not fetched, only the listing counts
 		emitHist(emit, true, cs, []gplan{sp(0, 3), sp(1, 3), sp(2, 3), sp(3, 3), sp(0, -1)})
 	}
@@ -531,6 +566,8 @@ func (Area) Gen(r *rand.Rand, tier string, emit func(string)) {
 			cl := sp(2, -1)
 			cl.closeAt = 'D'
 			emitTick(emit, cs, []gplan{sp(0, -1), cl, sp(0, -1)}, 1000)
+			emp := variant(r, b, 7)
+			emitTick(emit, []gcontract{b, emp}, []gplan{sp(1, -1), sp(0, -1), sp(1, -1)}, 1000)
 			un := sp(0, -1)
 			un.att = [2]string{"U0@o", ok(0)}
 			emitTick(emit, cs, []gplan{un, un, sp(2, 2), sp(0, -1)}, 1000)
@@ -723,9 +760,15 @@ func genHist(r *rand.Rand, emit func(string)) {
 	nc := 2 + r.Intn(4)
 	for len(cs) < nc {
 		src := cs[r.Intn(len(cs))]
-		k := r.Intn(7)
+		k := r.Intn(8)
 		if k == 4 && r.Intn(2) == 0 {
 			k = 0
+		}
+		if len(cs) == 1 && r.Intn(4) == 0 {
+			k = 7 // one history in four (at least) has an empty version
+		}
+		if k == 7 {
+			count("hist:hasEmptyVersion")
 		}
 		cs = append(cs, variant(r, src, k))
 	}
@@ -739,9 +782,15 @@ func genHist(r *rand.Rand, emit func(string)) {
 		closePoll = r.Intn(np)
 	}
 	cur := r.Intn(len(cs))
+	for i, c := range cs {
+		if len(c.fds) == 0 && len(filteredSorted(c.listed)) == 0 && r.Intn(2) == 0 {
+			cur = i // start on the empty version
+			count("hist:startsEmpty")
+		}
+	}
 	var plans []gplan
 	for i := 0; i < np; i++ {
-		if r.Intn(3) != 0 {
+		if r.Intn(3) != 0 && i > 0 {
 			cur = r.Intn(len(cs))
 		}
 		p := gplan{closeAt: '-'}
